@@ -336,6 +336,41 @@ def check_C08(ctx):
             ctx.dist('compiled')
         else:
             ctx.dist('rejected')
+    # "a location can be enabled if and only if stepping can report it", on the machine, over histories: refused requests,
+    # clear, reset and repeated requests must not make an unavailable location enabled (or an available one refused)
+    from checks import vmprops
+    hc = []
+    for c, x in zip(cases, a):
+        if len(hc) >= ctx.n(120, 900):
+            break
+        if is_crash(x) or fields(x).get('ok') != '1':
+            continue
+        hc.append({'defs': None, 'main': None, 'files': c[1], 'mainf': c[0], 'text': c[2]['text'], 'prog': vmprops.Prog(fields(x))})
+    paths = vmprops.get_path(ctx, [c_['prog'] for c_ in hc], 300)
+    jobs = []
+    for c_, pth in zip(hc, paths):
+        if isinstance(pth, tuple):
+            continue
+        c_['path'] = pth
+        p_ = c_['prog']
+        names = sorted({bp.split(':')[0] for bp in p_.avail} | {hx(k_) for k_ in c_['files']})
+        lines_ = {int(bp.split(':')[1]) for bp in p_.avail}
+        cand = ['%s:%d' % (f_, l_) for f_ in names for l_ in (-1, 0, 1, 2, max(lines_ | {1}) + 1, 4096)] + [hx(b'__standards__') + ':1', hx(b'zz') + ':1', hx(b'') + ':1']
+        un = [u for u in cand if u not in p_.pb]
+        ctx.rnd.shuffle(un)
+        h = []
+        for u in un[:3]:
+            h += ['b:' + u, ctx.rnd.choice(['c', 'r', 'd:' + u]), 'b:' + u]
+        av = list(p_.avail)
+        ctx.rnd.shuffle(av)
+        for a_ in av[:2]:
+            h += ['b:' + a_, 'v', ctx.rnd.choice(['c', 'r', 'd:' + a_, 'e']), 'b:' + a_]
+        for u in un[:2]:
+            h += ['b:' + u, 'e', 'c', 'b:' + u]
+        jobs.append((c_, h + ['v']))
+    ha, _hb = vmprops.run_histories(ctx, [j[0] for j in jobs], [j[1] for j in jobs], with_acts=True)
+    vmprops.check_history_oracles(ctx, jobs, ha, {'C06'})
+    ctx.cov['enable_histories'] = len(jobs)
     # the model's own output satisfies the theorems' conclusion by proof; the implementation's by the oracle above
     ctx.cov['rule'] = ('accepted sources in arbitrary layout (several statements per line, headers sharing lines, token ranges moved into included files); '
                        'non-trivial = more than one file, or some line owning several sites')
@@ -565,6 +600,25 @@ def check_C10(ctx):
                 e2e.append(defs + 'x1 := 0; x2 := 0; a := 3; b := 4;\n' + u + '\n')
                 e2e_meta.append((defs, u))
     outs = impl(ctx, ['RUN %s 200000' % files_req(b'm', {b'm': t.encode()}) for t in e2e])
+    # the temporary-bearing macro lives in a SUPPLIED file called like the hidden standard file (together with a copy of the
+    # built-in operators); it is used directly and through a macro of the main file, nested
+    save_def = [d for d, _ in TEMP_MACROS if d.startswith('DEFINE SAVE')][0]
+    stdf = std_macro_text() + b'\n' + save_def.encode()
+    via = 'DEFINE <ID> := RUN via WITH <ID> END AS SAVE $1 IN ( $0 := $1 ) END DEFINE\n'
+    sc_src = via + 'a := 3; b := 4; c := 5;\nSAVE c IN ( SAVE a IN ( x0 := RUN via WITH b END ) )\n'
+    o = impl(ctx, ['RUN %s 200000' % files_req(b'm', {b'm': sc_src.encode(), b'__standards__': stdf})])[0]
+    ctx.cov['evaluations'] += 1
+    if is_crash(o) or 'ok=1' not in o or 'done=1' not in o:
+        ctx.violation('hygiene-e2e', 'macro program with a supplied standard file did not compile/run: ' + o[:200], {'source': sc_src, '__standards__': stdf.decode('latin1')})
+    else:
+        env = {}
+        for kv in lst(fields(o)['acts'].split('@')[1], ','):
+            n_, v_ = kv.split('=')
+            env[unhx(n_).decode('latin1')] = int(v_)
+        for var, val in {'a': 3, 'b': 4, 'c': 5, 'x0': 4}.items():
+            if env.get(var, 0) != val:
+                ctx.violation('hygiene-e2e', 'nested macro uses (one direct, one through a macro of another file) interfere through temporaries: %s = %d, expected %d' % (var, env.get(var, 0), val),
+                              {'source': sc_src, '__standards__': stdf.decode('latin1')})
     expect = {
         'SWAP a b': {'a': 4, 'b': 3}, 'SWAP a b; SWAP b a': {'a': 3, 'b': 4}, 'SWAP x0 x1; x2 := x0': {'x0': 0, 'x2': 0},
         'TWICE ( x0 := x0 + 1 )': {'x0': 2}, 'TWICE ( TWICE ( x0 := x0 + 1 ) )': {'x0': 4},
@@ -675,6 +729,9 @@ def check_C11(ctx):
         'DEFINE <ID> := 0 AS $0 := 0 ; $0 := 0 END DEFINE\nx1 := 0',
         'DEFINE tick := <INT> AS tock := $0 END DEFINE\nDEFINE tock := <INT> AS tick := $0 END DEFINE\ntick := 1',
         'DEFINE <ID> := <ID> AS $0 := $1 ; $1 := $0 END DEFINE\na := b',
+        # fast growth (73 tokens per rewrite): the stream passes 2^16 tokens before the real budget of 1024 rewrites is used up
+        # (every intermediate form is a well-formed program, so only the budget error can stop it)
+        'DEFINE <ID> := 0 AS $0 := 0' + ' ; $0 := 0' * 19 + ' END DEFINE\nx1 := 0',
     ]
     outs = impl(ctx, ['GEN ' + files_req(b'm', {b'm': t.encode()}) for t in whole], timeout=180)
     for t, o in zip(whole, outs):
@@ -779,7 +836,11 @@ def check_C02(ctx):
     for tmpl in ('DEFINE PRIO {n} foo <ID> AS x := $0 ; $1 END DEFINE foo a',
                  'DEFINE foo <ID> <V> AS x := ${n} ; y := $0 END DEFINE foo a 1',
                  'DEFINE PRIO 3 foo <P> ; AS #{n} := 1 ; $0 ; ${n} END DEFINE foo x := 1 ;',
-                 'DEFINE foo AS y := ${n} END DEFINE DEFINE bar <INT> AS $0 END DEFINE foo ; bar 2'):
+                 'DEFINE foo AS y := ${n} END DEFINE DEFINE bar <INT> AS $0 END DEFINE foo ; bar 2',
+                 # empty and minimal bodies that are actually used
+                 'DEFINE skip ; AS END DEFINE skip ; x0 := {n}',
+                 'DEFINE nop AS END DEFINE DEFINE PRIO {n} id <V> AS $0 END DEFINE x := id 3 ; nop',
+                 'DEFINE tmp AS #0 END DEFINE DEFINE one <ID> AS END DEFINE x := tmp ; one y'):
         for n_ in NUMS:
             toks_ = tmpl.replace('{n}', n_).split(' ')
             for cut in range(1, len(toks_) + 1):
@@ -918,6 +979,10 @@ def check_C04(ctx, thms=None):
         if len(base) > 90:
             continue
         variants = [base[:i] + [t] + base[i:] for i in range(len(base) + 1) for t in STRUCT] + [base[:i] + base[i + 1:] for i in range(len(base))]
+        if it < len(bases):
+            # every identifier replaced by every other identifier of the source and by a fresh one
+            ids_ = sorted({t for t in base if re.fullmatch(r'[a-z][a-z0-9]*', t)}) + ['zz']
+            variants += [base[:i] + [t] + base[i + 1:] for i in range(len(base)) if re.fullmatch(r'[a-z][a-z0-9]*', base[i]) for t in ids_ if t != base[i]]
         for ts in variants:
             v, why, info = strict.verdict(ts)
             if info.dup:
